@@ -1,4 +1,5 @@
 import Pog.Props.C20
+import Pog.Props.ClientGen
 import Pog.Props.Dc
 import Pog.Props.Resolve
 import Pog.Lemmas.Imports
@@ -68,6 +69,11 @@ import Pog.Lemmas.AliasCover
                                            the `enum_default_member_*` theorems record why the member NAME cannot be derived by the old rule
 -/
 -- INDEX Pog.DcProps: rendered_defaults_last, render_order_defaults_last, render_order_is_identity, field_line_shape, generate_never_diverges, generate_value_error_iff, generate_default_factory_counterexample, generate_ok_partial, enum_default_member_counterexample, enum_default_expr_by_value, default_enum_expr, default_enum_str_expr, enum_default_member_exact, enum_default_member_partial, enum_default_member_in_enum_partial, enum_default_wrong_member_counterexample, int_enum_default_never_identifier
+/-
+  C01, mocks/mock_client.py (Pog/Model/ClientGen.lean; claimed from Pog/Props/ClientGen.lean):
+    mock_init_body_empty_iff_no_tags       the `__init__` body of MockAPIClient is empty - a SyntaxError - iff the document has no operation (F31)
+-/
+-- INDEX Pog.ClientGenProps: mock_init_body_empty_iff_no_tags, mock_client_syntax_error_when_no_operation
 namespace Pog.C01
 open Pog Pog.Imp Pog.Annot Pog.AliasCover
 
